@@ -233,14 +233,92 @@ fn real_mappings(f: &ResponseOutputFormat) -> Vec<CsvMapping> {
 
 // ---------------------------------------------------------------- verdicts by real parsers
 
+// SPECIFICATION of a CSV cell, written against the property text and the documentation of the
+// mapping, not against csv_mapping.rs: a path is a dot-separated list of OBJECT KEYS taken
+// literally ('/' and '~' are ordinary key characters, a numeric segment is a key and never an
+// array index, an empty segment is the empty key); a Sum adds its parts as f64 in order (null
+// counts 0) and fails when a part fails or is not a number; Optional turns a failure into null.
+fn spec_lookup<'a>(resp: &'a Value, path: &str) -> Option<&'a Value> {
+    let mut cur = resp;
+    for seg in path.split('.') {
+        match cur {
+            Value::Object(m) => cur = m.get(seg)?,
+            _ => return None,
+        }
+    }
+    Some(cur)
+}
+fn spec_value(m: &MapDoc, resp: &Value) -> Option<Value> {
+    match m {
+        MapDoc::Path(p) => spec_lookup(resp, p).cloned(),
+        MapDoc::Sum(l) => {
+            let parts: Option<Vec<Value>> = l.iter().map(|x| spec_value(x, resp)).collect();
+            let mut nums = vec![];
+            for v in parts? {
+                match v {
+                    Value::Null => nums.push(0.0f64),
+                    Value::Number(n) => nums.push(n.as_f64()?),
+                    _ => return None,
+                }
+            }
+            let mut acc = -0.0f64;
+            for x in nums {
+                acc += x;
+            }
+            Some(serde_json::Number::from_f64(acc).map(Value::Number).unwrap_or(Value::Null))
+        }
+        MapDoc::Opt(x) => Some(spec_value(x, resp).unwrap_or(Value::Null)),
+    }
+}
+/// the text of the cell: a string by its content, other values by their JSON text, a failure empty
+fn spec_cell(m: &MapDoc, resp: &Value) -> Vec<u8> {
+    match spec_value(m, resp) {
+        Some(Value::String(s)) => s.into_bytes(),
+        Some(v) => v.to_string().into_bytes(),
+        None => vec![],
+    }
+}
+/// the configured columns (a key given twice keeps its last mapping) in the order of the file:
+/// sorted by name, or in reverse configured order
+fn spec_columns(f: &FmtDoc) -> Vec<(String, MapDoc)> {
+    match f {
+        FmtDoc::Json(_) => vec![],
+        FmtDoc::Csv(doc, sorted) => {
+            let mut v: Vec<(String, MapDoc)> = vec![];
+            for (k, m) in doc {
+                v.retain(|(k2, _)| k2 != k);
+                v.push((k.clone(), m.clone()));
+            }
+            if *sorted {
+                v.sort_by(|a, b| a.0.as_bytes().cmp(b.0.as_bytes()));
+            } else {
+                v.reverse();
+            }
+            v
+        }
+    }
+}
+fn spec_collect(m: &MapDoc, resp: &Value, tab: &mut BTreeMap<String, (String, String)>) {
+    if let Some(v) = spec_value(m, resp) {
+        collect_floats(&v, tab);
+        if let Value::Number(n) = &v {
+            if let Some(x) = n.as_f64() {
+                add_float(tab, x);
+            }
+        }
+    }
+    match m {
+        MapDoc::Path(_) => {}
+        MapDoc::Sum(l) => l.iter().for_each(|x| spec_collect(x, resp, tab)),
+        MapDoc::Opt(x) => spec_collect(x, resp, tab),
+    }
+}
+
 /// header + row read back by the csv crate: exactly two records; the header names are the
-/// configured column names, each once; field i of the row is the value of the mapping configured
-/// under header name i (string by content, other values by JSON text, failed mapping empty)
-fn cols_ok(real: &ResponseOutputFormat, resp: &Value, header: &str, row: &str) -> bool {
-    let mapping: Vec<(String, CsvMapping)> = match real {
-        ResponseOutputFormat::Csv { mapping, .. } => mapping.iter().map(|(k, v)| (k.clone(), v.clone())).collect(),
-        _ => return false,
-    };
+/// configured column names, each once; field i of the row is the SPECIFIED cell of the mapping
+/// configured under header name i
+fn cols_ok(f: &FmtDoc, resp: &Value, header: &str, row: &str) -> bool {
+    let mapping = spec_columns(f);
     let text = format!("{}{}\n", header, row);
     let mut rd = csv::ReaderBuilder::new().has_headers(false).flexible(true).from_reader(text.as_bytes());
     let recs: Vec<csv::ByteRecord> = rd.byte_records().filter_map(|r| r.ok()).collect();
@@ -254,17 +332,31 @@ fn cols_ok(real: &ResponseOutputFormat, resp: &Value, header: &str, row: &str) -
         }
         let want: Vec<u8> = match mapping.iter().find(|(k, _)| k.as_bytes() == *n) {
             None => return false,
-            Some((_, m)) => match m.apply_mapping(resp) {
-                Ok(Value::String(s)) => s.into_bytes(),
-                Ok(v) => v.to_string().into_bytes(),
-                Err(_) => vec![],
-            },
+            Some((_, m)) => spec_cell(m, resp),
         };
         if recs[1].get(i) != Some(&want[..]) {
             return false;
         }
     }
     true
+}
+/// the error entry of the response handed back: exactly the columns whose cell fails by the
+/// specification are reported under error.csv (csv_error.csv when the response already has an
+/// error); a response none of whose cells fails is handed back unchanged
+fn errs_ok(f: &FmtDoc, resp: &Value, r2: &Value) -> bool {
+    let failing: std::collections::BTreeSet<String> =
+        spec_columns(f).into_iter().filter(|(_, m)| spec_value(m, resp).is_none()).map(|(k, _)| k).collect();
+    if failing.is_empty() {
+        return resp == r2;
+    }
+    let key = if resp.get("error").is_some() { "csv_error" } else { "error" };
+    match r2.get(key).and_then(|e| e.as_object()) {
+        Some(e) if e.len() == 1 => match e.get("csv").and_then(|c| c.as_object()) {
+            Some(c) => c.keys().cloned().collect::<std::collections::BTreeSet<String>>() == failing,
+            None => false,
+        },
+        _ => false,
+    }
 }
 /// SinkRun.keep_ok
 fn keep_ok(r: &Value, r2: &Value) -> bool {
@@ -469,7 +561,7 @@ const STRS: &[&str] = &[
 ];
 const KEYS: &[&str] = &[
     "a", "b", "c", "d", "error", "csv_error", "request", "route", "path", "cost", "total_cost", "x.y", "", "k,1", "q\"", "n\nl",
-    "id", "B", "Z", "\u{e9}", "origin_vertex",
+    "id", "B", "Z", "\u{e9}", "origin_vertex", "a/b", "~0", "~1", "~", "m~0n", "m~1n", "0", "1", "/", "cost/km",
 ];
 fn gen_string(r: &mut Rng) -> String {
     match r.below(8) {
@@ -551,19 +643,30 @@ fn gen_response(r: &mut Rng) -> Value {
 }
 /// all dotted paths that exist in the value (object descent only)
 fn paths_of(v: &Value, prefix: &str, out: &mut Vec<String>) {
-    if let Value::Object(m) = v {
-        for (k, x) in m {
-            let p = if prefix.is_empty() { k.clone() } else { format!("{}.{}", prefix, k) };
-            out.push(p.clone());
-            paths_of(x, &p, out);
+    match v {
+        Value::Object(m) => {
+            for (k, x) in m {
+                let p = if prefix.is_empty() { k.clone() } else { format!("{}.{}", prefix, k) };
+                out.push(p.clone());
+                paths_of(x, &p, out);
+            }
         }
+        // numeric segments under an ARRAY: not a path of object keys, the cell must fail
+        Value::Array(a) if !prefix.is_empty() => {
+            for (i, x) in a.iter().enumerate().take(2) {
+                let p = format!("{}.{}", prefix, i);
+                out.push(p.clone());
+                paths_of(x, &p, out);
+            }
+        }
+        _ => {}
     }
 }
 fn gen_path(r: &mut Rng, existing: &[String]) -> String {
     match r.below(10) {
         0 => "".into(),
         1 => format!("{}.{}", r.pick(KEYS), r.pick(KEYS)),
-        2 if !existing.is_empty() => format!("{}.{}", r.pick(existing), r.pick(&["0", "nope", "", "a"])),
+        2 if !existing.is_empty() => format!("{}.{}", r.pick(existing), r.pick(&["0", "1", "nope", "", "a", "~0", "~1", "a/b"])),
         3 => r.pick(KEYS).to_string(),
         4 => "route.cost.total_cost".into(),
         _ if !existing.is_empty() => r.pick(existing).clone(),
@@ -611,6 +714,9 @@ fn fmt_case(st: &mut Stream, f: &FmtDoc, resp: &Value, family: &str) {
     for m in real_mappings(&real) {
         collect_mapping(&m, resp, &mut tab);
     }
+    for (_, m) in spec_columns(f) {
+        spec_collect(&m, resp, &mut tab);
+    }
     let real2 = real.clone();
     let resp2 = resp.clone();
     let out = catch(move || {
@@ -626,19 +732,23 @@ fn fmt_case(st: &mut Stream, f: &FmtDoc, resp: &Value, family: &str) {
                 _ => "-".into(),
             };
             let cols = match f {
-                FmtDoc::Csv(..) if n > 0 => show_bool(cols_ok(&real, resp, hdr.as_deref().unwrap_or(""), row)).to_string(),
+                FmtDoc::Csv(..) if n > 0 => show_bool(cols_ok(f, resp, hdr.as_deref().unwrap_or(""), row)).to_string(),
                 _ => "-".into(),
             };
             if cols == "F" {
                 st.count("verdict:cols=F");
+            }
+            let errs = show_bool(errs_ok(f, resp, r2));
+            if errs == "F" {
+                st.count("verdict:errs=F");
             }
             if r2 != resp {
                 st.count("response_updated");
             }
             (
                 format!(
-                    "hdr={} fin={} row=Ok:{} resp={} parse={} cols={} keep={}",
-                    show_ostr(&hdr), show_ostr(&fin), esc(row.as_bytes()), jtext(r2), parse, cols, show_bool(keep_ok(resp, r2))
+                    "hdr={} fin={} row=Ok:{} resp={} parse={} cols={} keep={} errs={}",
+                    show_ostr(&hdr), show_ostr(&fin), esc(row.as_bytes()), jtext(r2), parse, cols, show_bool(keep_ok(resp, r2)), errs
                 ),
                 Some(row.clone()),
                 r2.clone(),
@@ -766,6 +876,36 @@ fn fmt_stream(a: &Args) {
         for (k, m) in &sums {
             fmt_case(&mut st, &FmtDoc::Csv(vec![(k.clone(), m.clone()), ("id".into(), p("request.origin_vertex"))], sorted), &sum_resp, "boundary_sum_optional");
         }
+    }
+    // keys with '/', '~', '~0', '~1' and numeric keys, under objects AND under arrays, addressed by
+    // plain paths, inside Sum and inside Optional (seed C19-9: a JSON-pointer lookup instead of the key walk)
+    let ptr_resp = json!({"request": {
+        "trip/id": "T-0", "fleet~0": "G0", "fleet~1": "G1", "t~": 5, "cost/km": 0.5, "cost/min": 0.25,
+        "0": "zero-key", "1": 7, "list": ["first", "second", 3.5], "nums": [1.5, 2.5], "obj01": {"0": 1.5, "1": 2.5},
+        "a": {"b": "nested", "0": 4}, "a/b": "flat", "~0": "tilde0", "~1": "tilde1", "~": "tilde", "/": "slash",
+        "": {"": "empty-empty"}, "arr_of_obj": [{"k": 1}, {"k": 2}]}});
+    let ptr_paths = ["request.trip/id", "request.fleet~0", "request.fleet~1", "request.t~", "request.cost/km", "request.0", "request.1",
+        "request.list.0", "request.list.1", "request.nums.0", "request.obj01.0", "request.obj01.1", "request.a.b", "request.a/b",
+        "request.a.0", "request.~0", "request.~1", "request.~", "request./", "request..", "request.arr_of_obj.0.k", "request.list.-",
+        "request/0", "request.trip.id"];
+    for sorted in [false, true] {
+        let all: Vec<(String, MapDoc)> = ptr_paths.iter().enumerate().map(|(i, q)| (format!("c{:02}", i), p(q))).collect();
+        fmt_case(&mut st, &FmtDoc::Csv(all, sorted), &ptr_resp, "boundary_pointer_like_keys");
+        let sums = vec![
+            ("rate".to_string(), MapDoc::Sum(vec![p("request.cost/km"), p("request.cost/min")])),
+            ("obj".to_string(), MapDoc::Sum(vec![p("request.obj01.0"), p("request.obj01.1")])),
+            ("arr".to_string(), MapDoc::Sum(vec![p("request.nums.0"), p("request.nums.1")])),
+            ("mix".to_string(), MapDoc::Sum(vec![p("request.1"), p("request.t~"), p("request.a.0")])),
+            ("optarr".to_string(), MapDoc::Opt(Box::new(p("request.list.0")))),
+            ("optkey".to_string(), MapDoc::Opt(Box::new(p("request.fleet~1")))),
+            ("sumopt".to_string(), MapDoc::Sum(vec![MapDoc::Opt(Box::new(p("request.nums.0"))), p("request.cost/km")])),
+            ("tag".to_string(), p("request.trip/id")),
+        ];
+        fmt_case(&mut st, &FmtDoc::Csv(sums.clone(), sorted), &ptr_resp, "boundary_pointer_like_keys");
+        fmt_case(&mut st, &FmtDoc::Csv(sums, sorted), &err_resp, "boundary_pointer_like_keys");
+    }
+    for q in ptr_paths.iter() {
+        fmt_case(&mut st, &FmtDoc::Csv(vec![("v".into(), p(q)), ("s".into(), MapDoc::Sum(vec![p(q)])), ("id".into(), p("request.1"))], false), &ptr_resp, "boundary_pointer_like_keys");
     }
     // every byte in a JSON string, key and cell
     let all_bytes: String = (0u8..128).map(|c| c as char).collect();
@@ -895,7 +1035,7 @@ fn run_batch(path: &Path, f: &FmtDoc, flush: Option<i64>, pr: &SinkParams, chunk
         pol["file_flush_rate"] = json!(x);
     }
     let policy: ResponseOutputPolicy = serde_json::from_value(pol).map_err(|e| e.to_string())?;
-    let sink = policy.build().map_err(|e| e.to_string())?;
+    let sink = policy.build().map_err(|e| format!("build-rejected:{}", e))?;
     let _ = take_sink_trace();
     let log: Mutex<Vec<(u64, usize)>> = Mutex::new(vec![]);
     let errors: Mutex<Vec<String>> = Mutex::new(vec![]);
@@ -988,35 +1128,17 @@ fn run_batch_guarded(path: &Path, f: &FmtDoc, flush: Option<i64>, pr: &SinkParam
         Err(_) => Err("panic-in-the-writers".into()),
     }
 }
+/// the model counts in unary: a flush rate above any number of writes a case can make is passed as
+/// 100000 (fewer than 100000 records are written per sink, so the flush rule decides the same)
+fn coq_rate(z: i64) -> i64 {
+    z.min(100_000)
+}
 fn coq_dig(b: &[u8]) -> String {
     format!("({}, {})", coq_z(b.len() as i128), coq_z(hash63(b) as i128))
 }
-/// the mapping in column order (what the header and every row must follow)
-fn ordered_mapping(f: &ResponseOutputFormat) -> Vec<(String, CsvMapping)> {
-    match f {
-        ResponseOutputFormat::Csv { mapping, sorted } => {
-            let mut kv: Vec<(String, CsvMapping)> = mapping.iter().map(|(k, v)| (k.clone(), v.clone())).collect();
-            if *sorted {
-                kv.sort_by(|a, b| a.0.cmp(&b.0));
-            } else {
-                kv.reverse();
-            }
-            kv
-        }
-        _ => vec![],
-    }
-}
-/// the logical cells of a response: a string by its content, other values by their JSON text,
-/// a failed mapping empty
-fn expected_cells(f: &ResponseOutputFormat, resp: &Value) -> Vec<Vec<u8>> {
-    ordered_mapping(f)
-        .iter()
-        .map(|(_, m)| match m.apply_mapping(resp) {
-            Ok(Value::String(s)) => s.into_bytes(),
-            Ok(v) => v.to_string().into_bytes(),
-            Err(_) => vec![],
-        })
-        .collect()
+/// the specified cells of a response in column order (see spec_cell / spec_columns)
+fn expected_cells(f: &FmtDoc, resp: &Value) -> Vec<Vec<u8>> {
+    spec_columns(f).iter().map(|(_, m)| spec_cell(m, resp)).collect()
 }
 /// SinkRun.dec_event
 fn enc_event(t: usize, e: &SinkEvent) -> u64 {
@@ -1073,6 +1195,48 @@ fn sink_case(st: &mut Stream, pr: &SinkParams, family: &str, dir: &Path) {
     }
     let bytes = std::fs::read(&path).unwrap_or_default();
     let _ = std::fs::remove_file(&path);
+    // a flush rate that is not positive: the specification allows the configuration to be refused when
+    // the sink is built (nothing of the batch is written then) - or, if it is accepted, demands every record
+    let flush_here = pr.flush[runs.len() % pr.flush.len()];
+    let rate_not_positive = flush_here.map(|x| x <= 0).unwrap_or(false);
+    if let Some(e) = &failure {
+        if e.starts_with("build-rejected:") {
+            st.count(&format!("family:{}", family));
+            st.count("build_rejected");
+            let line = format!("build-rejected file={}", digest(&bytes));
+            let desc = json!({"id": id, "family": family, "params": serde_json::to_value(pr).unwrap()});
+            let coq_runs = coq_list(&(0..=runs.len()).collect::<Vec<_>>(), |k| {
+                if *k < runs.len() {
+                    let rr = &runs[*k];
+                    format!("(mk_run {} {} {})", coq_opt(&pr.flush[*k % pr.flush.len()].map(coq_rate), |z| coq_z(*z as i128)),
+                            coq_list(&rr.queues, |q| coq_list(q, |i| i.to_string())), coq_list(&rr.trace, |(t, e)| enc_event(*t, e).to_string()))
+                } else {
+                    format!("(mk_run {} [] [])", coq_opt(&flush_here.map(coq_rate), |z| coq_z(*z as i128)))
+                }
+            });
+            let mut tab = BTreeMap::new();
+            add_float(&mut tab, 0.0);
+            add_float(&mut tab, -0.0);
+            for v in &resps {
+                collect_floats(v, &mut tab);
+                for (_, m) in spec_columns(&f) {
+                    spec_collect(&m, v, &mut tab);
+                }
+            }
+            // S: refusing is what the specification allows only for a rate that is not positive
+            let s_term = if rate_not_positive {
+                format!("line \"S\" {} {}", id, coq_str(&line))
+            } else {
+                format!("line \"S\" {} {}", id, coq_str("a positive flush rate must be accepted: one record per response"))
+            };
+            st.case(
+                vec![format!("line_sink_M {} {} {} {} {} {}", coq_tab(&tab), id, coq_fmtdoc(&f), coq_list(&sresps, |x| x.coq()), coq_ostr(&pr.preexisting), coq_runs), s_term],
+                vec![format!("I {} {}", id, line)],
+                desc,
+            );
+            return;
+        }
+    }
     // ---- the file: previous content / header, then the records a real reader finds
     let base_len = match (&pr.preexisting, real.initial_file_contents()) {
         (Some(c), _) => c.len(),
@@ -1119,7 +1283,7 @@ fn sink_case(st: &mut Stream, pr: &SinkParams, family: &str, dir: &Path) {
         if pr.preexisting.is_none() {
             let mut rd = csv::ReaderBuilder::new().has_headers(false).flexible(true).from_reader(prefix);
             let hs: Vec<Vec<Vec<u8>>> = rd.byte_records().filter_map(|r| r.ok()).map(|r| r.iter().map(|f| f.to_vec()).collect()).collect();
-            let names: Vec<Vec<u8>> = ordered_mapping(&real).iter().map(|(k, _)| k.as_bytes().to_vec()).collect();
+            let names: Vec<Vec<u8>> = spec_columns(&f).iter().map(|(k, _)| k.as_bytes().to_vec()).collect();
             if hs.len() != 1 || hs[0] != names {
                 ok = "F:header-is-not-the-configured-columns".into();
             }
@@ -1171,7 +1335,7 @@ fn sink_case(st: &mut Stream, pr: &SinkParams, family: &str, dir: &Path) {
                     if !parses_back(std::str::from_utf8(l).unwrap_or(""), &resps[i]) && ok == "T" {
                         ok = format!("F:record-{}-does-not-parse-back", k);
                     }
-                } else if fields.get(k) != Some(&expected_cells(&real, &resps[i])) && ok == "T" {
+                } else if fields.get(k) != Some(&expected_cells(&f, &resps[i])) && ok == "T" {
                     // the csv reader's fields are the mapping's values, in header order
                     ok = format!("F:record-{}-fields-differ-from-the-mapping", k);
                 }
@@ -1233,7 +1397,7 @@ fn sink_case(st: &mut Stream, pr: &SinkParams, family: &str, dir: &Path) {
     let coq_runs = coq_list(&runs.iter().enumerate().collect::<Vec<_>>(), |(k, rr)| {
         format!(
             "(mk_run {} {} {})",
-            coq_opt(&pr.flush[*k % pr.flush.len()], |z| coq_z(*z as i128)),
+            coq_opt(&pr.flush[*k % pr.flush.len()].map(coq_rate), |z| coq_z(*z as i128)),
             coq_list(&rr.queues, |q| coq_list(q, |i| i.to_string())),
             coq_list(&rr.trace, |(t, e)| enc_event(*t, e).to_string())
         )
@@ -1269,6 +1433,13 @@ fn sink_stream(a: &Args) {
         for (n, fl) in [(1usize, None), (1, Some(1)), (3, Some(2)), (3, Some(3)), (3, Some(4)), (5, Some(1))] {
             sink_case(&mut st, &SinkParams { format, responses: n, flush: vec![fl], seed: 11 + n as u64, ..base.clone() }, "boundary_single_thread", &dir);
         }
+        // flush rates at and beyond the edges: 0 and negative (refused when the sink is built, or else every record
+        // must be there), 1, huge; one and several threads; a refused second run keeps the first run's records
+        for (k, fl) in [0i64, -1, i64::MIN, 1, 1 << 40, i64::MAX].into_iter().enumerate() {
+            sink_case(&mut st, &SinkParams { format, responses: 3, flush: vec![Some(fl)], seed: 60 + k as u64, ..base.clone() }, "boundary_flush_rate_edges", &dir);
+            sink_case(&mut st, &SinkParams { format, threads: 4, chunks: 4, responses: 12, jitter: true, flush: vec![Some(fl)], seed: 70 + k as u64, ..base.clone() }, "boundary_flush_rate_edges", &dir);
+        }
+        sink_case(&mut st, &SinkParams { format, threads: 2, chunks: 2, responses: 6, runs: 2, flush: vec![Some(2), Some(0)], seed: 80, ..base.clone() }, "boundary_flush_rate_edges", &dir);
         // second and third run appending to the first run's file, different flush rates
         sink_case(&mut st, &SinkParams { format, threads: 4, chunks: 4, responses: 12, runs: 3, flush: vec![None, Some(5), Some(2)], seed: 21, ..base.clone() }, "boundary_append_runs", &dir);
         // file left by something else (does not end the way this format would)
@@ -1525,7 +1696,7 @@ fn app_case(st: &mut Stream, app: &Arc<CompassApp>, pr: &AppParams, family: &str
                 let hit = (0..recs.len()).find(|&k| {
                     !used[k]
                         && if pr.csv && !pr.toml_policy {
-                            fields[k] == expected_cells(&real, resp)
+                            fields[k] == expected_cells(&f, resp)
                         } else {
                             parses_back(std::str::from_utf8(recs[k]).unwrap_or(""), resp)
                         }
@@ -1544,7 +1715,7 @@ fn app_case(st: &mut Stream, app: &Arc<CompassApp>, pr: &AppParams, family: &str
             let key = |q: &Value| format!("{}|{}", q.get("origin_vertex").map(|x| x.to_string()).unwrap_or_default(), q.get("destination_vertex").map(|x| x.to_string()).unwrap_or_default());
             let mut want: Vec<String> = queries.iter().map(key).collect();
             let mut got: Vec<String> = if pr.csv && !pr.toml_policy {
-                let names: Vec<String> = ordered_mapping(&real).iter().map(|(k, _)| k.clone()).collect();
+                let names: Vec<String> = spec_columns(&f).iter().map(|(k, _)| k.clone()).collect();
                 let (io, id_) = (names.iter().position(|n| n == "origin").unwrap(), names.iter().position(|n| n == "dest").unwrap());
                 fields.iter().map(|f| format!("{}|{}", String::from_utf8_lossy(f.get(io).map(|x| x.as_slice()).unwrap_or(b"?")), String::from_utf8_lossy(f.get(id_).map(|x| x.as_slice()).unwrap_or(b"?")))).collect()
             } else {
